@@ -37,6 +37,7 @@ class Engine(ExprMixin, ExprMixin2, StmtMixin, LoopMixin, CallMixin, CompMixin, 
         self.spec_funcs = spec_funcs or {}
         self.ext_models = ext_models or {}
         self.ext_methods = ext_methods or {}
+        self.ext_attrs = {}
         self.rules = Rules()
         from . import state as _state
         from .sorts import Val as _Val
@@ -128,10 +129,12 @@ class Engine(ExprMixin, ExprMixin2, StmtMixin, LoopMixin, CallMixin, CompMixin, 
         for j, f in enumerate(finals):
             if f.status in ("run", "ret"):
                 res.normal_paths += 1
-                self.post_obligations(c, f, entry, j, is_gen, raised_conds, extra_post)
+                self.post_obligations(c, f, entry, j, is_gen, raised_conds, None)
+                self.run_extra(extra_post, c, f, entry, j, None)
             elif f.status == "raise":
                 res.raise_paths += 1
                 self.raise_obligations(c, f, entry, j, raised_conds)
+                self.run_extra(extra_post, c, f, entry, j, f.exc[0])
             else:
                 raise Unsupported(f"{qual}: path ends with status {f.status}")
             res.effects += [e for e in f.log if e not in res.effects]
@@ -140,6 +143,18 @@ class Engine(ExprMixin, ExprMixin2, StmtMixin, LoopMixin, CallMixin, CompMixin, 
         res.gen_s = time.time() - t0
         self.obligations = []
         return res
+
+    def run_extra(self, extra, c, f, entry, j, raised):
+        """property-specific obligations read off the path's ghost log: extra(engine, contract, final state, entry state, j, raised)"""
+        if extra is None:
+            return
+        saved = (f.env, f.status)
+        f.env = {n.lstrip("*"): entry.env[n.lstrip("*")] for n, _, _ in c.params}
+        f.status = "run"
+        try:
+            extra(self, c, f, entry, j, raised)
+        finally:
+            f.env, f.status = saved
 
     def check_signature(self, c, fn):
         names = [a.arg for a in fn.args.posonlyargs + fn.args.args]
